@@ -19,6 +19,7 @@ package main
 // real result unchanged (which then differs from the expectation).
 
 import (
+	"sync"
 	"bytes"
 	"crypto/des"
 	"crypto/hmac"
@@ -701,6 +702,53 @@ func c02Oracles() {
 		}
 		if want := append(c02RefHMAC(key, sc[:], lmcc[:]), lmcc[:]...); !bytes.Equal(lmr, want) {
 			return "C02/auth/v2-lm", fmt.Sprintf("%s: LmChallengeResponse %x, LMv2 gives %x", what, lmr, want)
+		}
+		return "", ""
+	})
+
+	// The response is computed from ONE reading of the clock: whatever the instant at which the AUTHENTICATE
+	// message is built, the NTProofStr authenticates the blob that is sent.  args: (user, password, domain in the
+	// upper-case form the message carries it in,
+	// number of second boundaries to straddle).  Twenty-four goroutines build messages continuously in the 300 us
+	// around each boundary of the wall clock's second (the blob's time stamp has one-second granularity there).
+	Oracle("c02.authenticate_clock", func(a []Val) (string, string) {
+		user, pw, dom := a[0].Str(), a[1].Str(), a[2].Str()
+		n := int(a[3].Int())
+		sc := [8]byte{1, 2, 3, 4, 5, 6, 7, 8}
+		key := c02RefNTOWFv2(pw, user, dom)
+		var mu sync.Mutex
+		bad := ""
+		built := 0
+		for b := 0; b < n && bad == ""; b++ {
+			now := time.Now()
+			next := now.Truncate(time.Second).Add(time.Second)
+			time.Sleep(next.Sub(now) - 400*time.Microsecond)
+			var wg sync.WaitGroup
+			for g := 0; g < 24; g++ {
+				wg.Add(1)
+				go func() {
+					defer wg.Done()
+					defer func() { recover() }()
+					for time.Now().Before(next.Add(400 * time.Microsecond)) {
+						ch := &ntlm.ChallengeMessage{NegotiateFlags: c02FlagUnicode | c02FlagESS, ServerChallenge: sc}
+						msg, err := ntlm.CreateAuthenticateMessage(ch, user, pw, dom, "WS")
+						if err != nil {
+							return
+						}
+						ntr := c02Field(msg, 20)
+						mu.Lock()
+						built++
+						if len(ntr) >= 16 && !hmac.Equal(ntr[:16], c02RefHMAC(key, sc[:], ntr[16:])) && bad == "" {
+							bad = fmt.Sprintf("NtChallengeResponse %x built at %s: the first 16 bytes are not HMAC-MD5(NTOWFv2, server challenge || the blob that follows)", c02ClipB(ntr), time.Now().Format("15:04:05.000000"))
+						}
+						mu.Unlock()
+					}
+				}()
+			}
+			wg.Wait()
+		}
+		if bad != "" {
+			return "C02/auth/v2-nt-proof/clock-tick", bad
 		}
 		return "", ""
 	})
